@@ -1275,10 +1275,13 @@ pub(crate) fn check_spec_reserved_keys(key: &[u8], mut value: &[u8]) -> Result<(
             Ipv6Addr::decode(&mut value)?;
         }
         b"secp256k1" => {
+            // the value must be a byte string holding a valid public key
+            #[allow(unused_variables)]
+            let pubkey_bytes = Bytes::decode(&mut value)?;
             #[cfg(all(feature = "k256", not(feature = "rust-secp256k1")))]
-            <Enr<k256::ecdsa::SigningKey>>::decode(&mut value)?;
+            <k256::ecdsa::SigningKey as EnrKeyUnambiguous>::decode_public(&pubkey_bytes)?;
             #[cfg(feature = "rust-secp256k1")]
-            <Enr<secp256k1::SecretKey>>::decode(&mut value)?;
+            <secp256k1::SecretKey as EnrKeyUnambiguous>::decode_public(&pubkey_bytes)?;
         }
         b"ed25519" => {
             // the decoder only accepts a byte string under this key
